@@ -4,7 +4,8 @@
 \* Measured (MaxRound = 1, MaxRecv = 4): 2,995,284 distinct / 19,013,808 generated states, depth 11.
 CONSTANTS
   NV = 4
-  Power <- MCUnitPower
+  PowerOf <- MCPowerOf
+  PowerTable <- Unit4
   MaxVal = 2
   NValid = 2
   MaxRound = 1
